@@ -4,7 +4,7 @@ Each patch is applied to a scratch copy of /repo (outside /repo and /verif); the
 Prints one line per seed: which checks fire (VIOLATION) and which stay silent."""
 import os, sys, json, subprocess, shutil, tempfile, glob, concurrent.futures as cf
 VERIF = os.path.dirname(os.path.dirname(os.path.abspath(__file__)))
-root = sys.argv[1] if len(sys.argv) > 1 else os.path.join(VERIF, "seeded")
+root = os.path.abspath(sys.argv[1]) if len(sys.argv) > 1 else os.path.join(VERIF, "seeded")
 sel = sys.argv[2:]
 props = [c["property_id"] for c in json.load(open(os.path.join(VERIF, "MANIFEST.json")))["checks"]]
 if os.environ.get("NEAT_PROPS"):
